@@ -1,6 +1,15 @@
-"""C11 - El Torito points at the right bytes (DESIGN.md section 4): MASTER-ENUM histories + growth chains with the oracles.oracle_boot oracle."""
+"""C11 - El Torito points at the right bytes (DESIGN.md section 4): MASTER-ENUM histories + El Torito alphabet with the rboot oracle."""
 from mc import master, ops, oracles
 from mc.props import _std
 
-_std.install(globals(), 'C11', 'model_checking', [oracles.oracle_boot], _std.default_bounds(),
-             ['independent decoders rboot + r119 are trusted base'] + ['alphabet sigma1 of mc/ops.py and the depth bounds listed in the evidence'])
+B = _std.default_bounds()
+CF = [ops.mk(1), ops.mk(3, joliet=3, rr='1.09'), ops.mk(3, joliet=3, udf=True), ops.mk(4, joliet=2, rr='1.12', udf=True, xa=True)]
+B['quick'].append(('alpha', 'sigma11', CF[:3], 5, 2))
+B['thorough'].append(('alpha', 'sigma11', CF, 6, 2))
+B['thorough'].append(('alpha', 'sigma11_big', CF[1:3], 5, 2))
+
+_std.install(globals(), 'C11', 'model_checking', [oracles.oracle_boot, master.oracle_roundtrip], B,
+             ['independent decoders rboot + r119 are trusted base',
+              'the roundtrip oracle supplies "removing El Torito removes all of this and nothing else" (model equality after rm_eltorito)',
+              'alphabet sigma1 / sigma11 of mc/ops.py and the depth bounds listed in the evidence'],
+             alphabets={'sigma11': lambda m: ops.sigma11(m, 'quick'), 'sigma11_big': lambda m: ops.sigma11(m, 'thorough')})
